@@ -9,10 +9,12 @@ func initTimer(t *time.Timer, timeout time.Duration) *time.Timer {
 	if t == nil {
 		return time.NewTimer(timeout)
 	}
-	if t.Reset(timeout) {
-		// developer sanity-check
-		panic("BUG: active timer trapped into initTimer()")
-	}
+	// Since Go 1.23 Reset never leaves a stale value in the timer's channel, so
+	// a pooled timer can be re-armed whatever state it is in. Its result is of
+	// no use here: for a timer that has just fired it may still report "active"
+	// while the runtime finishes the send whose value was already received,
+	// e.g. by the goroutine that then put the timer back into the pool.
+	t.Reset(timeout)
 	return t
 }
 
